@@ -119,7 +119,7 @@ def build_harness(cfgs):
             hd = harness_dir()
             lock = os.path.join(hd, 'Cargo.lock')
             if not os.path.exists(lock):
-                shutil.copy(os.path.join(REPO, 'Cargo.lock'), lock)
+                shutil.copy(os.path.join(REPO if os.path.exists(os.path.join(REPO, 'Cargo.lock')) else '/repo', 'Cargo.lock'), lock)
             cmd = ['cargo', 'build', '--release', '--offline', '-q']
             if feats:
                 cmd += ['--features', ','.join(feats)]
@@ -271,3 +271,17 @@ def load_known_findings():
     if not os.path.exists(p):
         return []
     return json.load(open(p)).get('findings', [])
+
+
+def coqchk(pid, timeout=2400):
+    """independent re-check of the compiled property file and everything it depends on (thorough tier)"""
+    t = time.time()
+    with Lock('model'):
+        rc, out = sh(['coqchk', '-silent', '-o', '-Q', 'theories', 'SJ', 'SJ.Properties.%s' % pid], cwd=COQ, timeout=timeout)
+    axioms = []
+    m = re.search(r'\* Axioms:(.*?)\n\s*\n\s*\*', out, re.S)
+    if m:
+        axioms = [l.strip() for l in m.group(1).split('\n') if l.strip() and '<none>' not in l]
+    bad = [a for a in axioms if a.replace('Coq.Logic.', '').replace('Coq.Reals.', '') not in ALLOWED_AXIOMS]
+    flags_ok = all(k in out for k in ('type-in-type: <none>', 'unsafe (co)fixpoints: <none>', 'positivity is assumed: <none>'))
+    return {'ok': rc == 0 and not bad and flags_ok, 'rc': rc, 'axioms': axioms, 'not_allowlisted': bad, 'wall_s': round(time.time() - t, 1), 'tail': out[-600:] if rc else ''}
